@@ -59,6 +59,7 @@ func Notes(ctx context.Context, client *gitlab.Client, issue *gitlab.Issue) <-ch
 
 			if err != nil {
 				out <- ErrorEvent{Err: err, Time: time.Now()}
+				return
 			}
 
 			for _, note := range notes {
@@ -90,6 +91,7 @@ func LabelEvents(ctx context.Context, client *gitlab.Client, issue *gitlab.Issue
 
 			if err != nil {
 				out <- ErrorEvent{Err: err, Time: time.Now()}
+				return
 			}
 
 			for _, e := range events {
@@ -122,6 +124,7 @@ func StateEvents(ctx context.Context, client *gitlab.Client, issue *gitlab.Issue
 			events, resp, err := client.ResourceStateEvents.ListIssueStateEvents(issue.ProjectID, issue.IID, &opts, gitlab.WithContext(ctx))
 			if err != nil {
 				out <- ErrorEvent{Err: err, Time: time.Now()}
+				return
 			}
 
 			for _, e := range events {
